@@ -56,7 +56,15 @@ def seq_histories(draw, tier):
     return {"ops": [list(o) for o in draw(st.lists(op, min_size=draw(st.sampled_from([0, 5])),
                                                    max_size=40 if tier == "quick" else 60))],
             "lock": draw(st.booleans()), "susp": draw(st.integers(0, 1)),
-            "exc": draw(st.sampled_from(sorted(GETTER_ERRORS))), "aw_value": draw(st.sampled_from([False, False, True]))}
+            "exc": draw(st.sampled_from(sorted(GETTER_ERRORS))), "aw_value": draw(st.sampled_from([False, False, True])),
+            # "small": the getter returns plain numbers that are EQUAL to True / False / each other (1, 1.0, 0, -0.0):
+            # awaiters must get the very object the getter returned
+            "small_value": draw(st.sampled_from([False, False, True]))}
+
+
+def _small(n):
+    """a fresh number object equal to True or False (and to the result of other runs)"""
+    return (float("1"), int("1"), float("0"), int("0"), float("-0.0"), complex("1"), True, False)[n % 8]
 
 
 def make_class(ctx, runs, case, fail_flags):
@@ -73,7 +81,9 @@ def make_class(ctx, runs, case, fail_flags):
                 rec[1] = "failed"
                 raise GETTER_ERRORS[case.get("exc", "ValueError")]("planned getter failure")
             value = ["value", self.tag, len(runs)]
-            if case.get("aw_value"):
+            if case.get("small_value"):
+                value = _small(len(runs))
+            elif case.get("aw_value"):
                 # the cached VALUE is itself awaitable (a job handle, a future): it is data, nobody awaits it
                 value = AwaitableItem(("value", self.tag, len(runs)))
             rec[1] = "returned"
@@ -227,6 +237,7 @@ def conc_configs(draw, tier):
             "susp": draw(st.integers(1, 2)),
             "deleter": draw(st.one_of(st.none(), st.integers(0, 3))),
             "fail_run": draw(st.one_of(st.none(), st.none(), st.integers(1, 2))),
+            "small_value": draw(st.sampled_from([False, False, True])),
             "cancel": list(cancel) if cancel else None, "exc": draw(st.sampled_from(sorted(GETTER_ERRORS))),
             "choices": draw(st.lists(st.integers(0, 4), max_size=40))}
 
@@ -255,7 +266,7 @@ def run_conc(case, choices=None, default="rr"):
             if case["fail_run"] == n:
                 rec[0] = "failed"
                 raise GETTER_ERRORS[case.get("exc", "ValueError")]("planned getter failure")
-            value = ["value", n]
+            value = ["value", n] if not case.get("small_value") else _small(n)
             rec[0], rec[1] = "returned", value
             return value
         except BaseException:  # noqa: B902
